@@ -30,7 +30,7 @@ from drivers import warcwriter_reader as rd
 
 _builtin_open = open
 from urllib.parse import unquote as _unquote
-FAULTABLE = ('j.open', 'j.write', 'j.close', 'a.open', 'a.write', 'a.close', 'j.remove')
+FAULTABLE = ('j.open', 'j.write', 'j.close', 'a.open', 'a.write', 'a.close', 'j.remove', 'c.open', 'c.write', 'c.close')
 
 
 def role_of(path):
@@ -78,6 +78,8 @@ def op_class(name):
         return 'archive'
     if name == 'j.remove':
         return 'unlink'
+    if name in ('c.open', 'c.write', 'c.close'):
+        return 'cdx'
     return 'other'
 
 
@@ -535,7 +537,8 @@ class Exec(object):
                 if ex.muted and ex.append_no == ex.log_from_append:
                     ex.muted = False
                 fi = file_id(self._warc_filename)
-                ex.mark('abegin', ty=str(record.fields.get('WARC-Type', '')), fi=fi, a=ex.append_no, len=0)
+                ex.mark('abegin', ty=str(record.fields.get('WARC-Type', '')), fi=fi, a=ex.append_no, len=0,
+                        cx=bool(getattr(self, '_cdx_filename', None)))    # is the CDX index set up already?
                 ab = len(ex.ev) - 1
                 size0 = len((ex.last.get(fi) or (b'', None))[0])
                 ex.maxseen[fi] = size0
